@@ -34,9 +34,10 @@ ANCHORS = ['manifest:ManifestFile.load', 'manifest:ManifestFile.dump',
            'manifest:ManifestPathEntry.decode_char',
            'compression:open_potentially_compressed_path']
 REQUIRED = ['manifest:ManifestFile.load', 'manifest:ManifestFile.dump',
-            'contract:encoded_path', 'redump_checked']
-ASSUMPTIONS = ['timestamps have whole seconds and no tzinfo (GLEP 74 has no '
-               'sub-second field)',
+            'contract:encoded_path', 'redump_checked', 'native_equality_checks',
+            'interleaved_checked', 'timestamp_roundtrips_other_tz']
+ASSUMPTIONS = ['timestamps are naive datetimes (taken as UTC), with or without '
+               'microseconds; timezone-aware values are not generated',
                'checksum names/values are non-empty tokens without whitespace']
 CONTEXTS = [('', ''), ('a', 'b'), ('0', '0'), ('F', 'F'), ('\\', 'x41')]
 FORMATS = ['plain', 'gz', 'bz2', 'lzma', 'xz']
@@ -66,6 +67,9 @@ def units(tier, seed):
         u.append({'k': 'fix', 'i': i, 'n': 40})
     for i in range(nfile):
         u.append({'k': 'file', 'i': i, 'n': 4})
+    # all 25 format pairs x 2 usage patterns at least once
+    for i in range(50 if tier == 'quick' else 1000):
+        u.append({'k': 'interleaved', 'i': i, 'n': 1 if tier == 'quick' else 3})
     return u
 
 
@@ -279,6 +283,87 @@ def file_roundtrip(ctx, entries_m, fmt, case, accepted_text=None):
     return True
 
 
+def interleaved_roundtrip(ctx, ents_a, ents_b, fmt_a, fmt_b, pattern, case):
+    """Two Manifest files (any formats) in use at the same time in one process:
+    handles obtained before either is used, or one written / read while the other
+    is still open.  Each file must hold, and give back, its own entries."""
+    from gemato.compression import open_potentially_compressed_path as opcp
+    from gemato.manifest import ManifestFile
+    want = {'a': [adapt.norm_model(e) for e in ents_a],
+            'b': [adapt.norm_model(e) for e in ents_b]}
+    with common.Scratch('vf-c08i-') as d:
+        os.mkdir(os.path.join(d, 'ra'))
+        os.mkdir(os.path.join(d, 'rb'))
+        pa = os.path.join(d, 'ra', 'Manifest' + ('' if fmt_a == 'plain' else '.' + fmt_a))
+        pb = os.path.join(d, 'rb', 'Manifest' + ('' if fmt_b == 'plain' else '.' + fmt_b))
+        ma, mb = ManifestFile(), ManifestFile()
+        ma.entries = [adapt.to_gemato(e) for e in ents_a]
+        mb.entries = [adapt.to_gemato(e) for e in ents_b]
+        got = {}
+        try:
+            # ---- writing
+            if pattern == 'handles-first':
+                ha = opcp(pa, 'w', encoding='utf8')
+                hb = opcp(pb, 'w', encoding='utf8')
+                with ha as f:
+                    ma.dump(f, sign_openpgp=False)
+                with hb as f:
+                    mb.dump(f, sign_openpgp=False)
+            else:
+                with opcp(pa, 'w', encoding='utf8') as fa:
+                    with opcp(pb, 'w', encoding='utf8') as fb:
+                        mb.dump(fb, sign_openpgp=False)
+                    ma.dump(fa, sign_openpgp=False)
+            disk = {'a': [adapt.norm_model(e) for e in mtext.parse_file(pa)],
+                    'b': [adapt.norm_model(e) for e in mtext.parse_file(pb)]}
+            # ---- reading
+            ra, rb = ManifestFile(), ManifestFile()
+            if pattern == 'handles-first':
+                ha = opcp(pa, 'r', encoding='utf8')
+                hb = opcp(pb, 'r', encoding='utf8')
+                with ha as f:
+                    ra.load(f, verify_openpgp=False)
+                with hb as f:
+                    rb.load(f, verify_openpgp=False)
+            else:
+                with opcp(pa, 'r', encoding='utf8') as fa:
+                    with opcp(pb, 'r', encoding='utf8') as fb:
+                        rb.load(fb, verify_openpgp=False)
+                    ra.load(fa, verify_openpgp=False)
+            got = {'a': [adapt.norm_gemato(e) for e in ra.entries],
+                   'b': [adapt.norm_gemato(e) for e in rb.entries]}
+        except Exception as exc:
+            ctx.violation('interleaved-raises:' + adapt.exc_key(exc), 'two Manifest '
+                          'files (%s, %s) used at the same time (%s): %r'
+                          % (fmt_a, fmt_b, pattern, exc), case)
+            return False
+        ctx.count('interleaved_checked')
+        for k in ('a', 'b'):
+            if disk[k] != want[k]:
+                ctx.violation('interleaved-file-differs', 'file %s (%s/%s, %s) does not '
+                              'hold the entries written to it' % (k, fmt_a, fmt_b,
+                                                                 pattern), case)
+                return False
+            if got[k] != want[k]:
+                ctx.violation('interleaved-read-differs', 'reading file %s (%s/%s, %s) '
+                              'gave other entries than it holds' % (k, fmt_a, fmt_b,
+                                                                   pattern), case)
+                return False
+    return True
+
+
+def run_interleaved(u, ctx):
+    for j in range(u['n']):
+        rng = common.rng_for(ctx.seed, ID, 'inter', u['i'], j)
+        ea = mtextgen.rand_entries(rng, hostile=0.5) or [mtextgen.rand_entry(rng)]
+        eb = mtextgen.rand_entries(rng, hostile=0.5) or [mtextgen.rand_entry(rng)]
+        case = {'kind': 'interleaved', 'a': ea, 'b': eb,
+                'fmt_a': FORMATS[(u['i'] + j) % len(FORMATS)],
+                'fmt_b': FORMATS[(u['i'] // len(FORMATS) + j) % len(FORMATS)],
+                'pattern': ['handles-first', 'nested'][(u['i'] + j) % 2]}
+        exec_case(case, ctx)
+
+
 # ------------------------------------------------------------------ units
 
 def run_cp(u, ctx):
@@ -389,6 +474,23 @@ def exec_case(case, ctx):
         ctx.case(sig=('rand', tuple(tags), len(ents) > 5), case=case,
                  nontrivial=bool(ents), klass=k)
         roundtrip(ctx, ents, case, k)
+        if k == 'rand' and any(e['tag'] == 'TIMESTAMP' for e in ents):
+            # the text form is UTC whatever the local time zone of the process is
+            import time
+            old_tz = os.environ.get('TZ')
+            try:
+                for tz in ('XXX-5', 'XXX8', 'CET-1CEST,M3.5.0,M10.5.0/3'):
+                    os.environ['TZ'] = tz
+                    time.tzset()
+                    ctx.count('timestamp_roundtrips_other_tz')
+                    if not roundtrip(ctx, ents, dict(case, tz=tz), k):
+                        break
+            finally:
+                if old_tz is None:
+                    os.environ.pop('TZ', None)
+                else:
+                    os.environ['TZ'] = old_tz
+                time.tzset()
         if ents:
             redump_after_edit(ctx, ents, case)
             ctx.sample(case, k)
@@ -407,6 +509,11 @@ def exec_case(case, ctx):
         file_roundtrip(ctx, case['entries'], case['fmt'], case)
         if case['entries']:
             ctx.sample(case, 'file')
+    elif k == 'interleaved':
+        ctx.case(sig=('interleaved', case['fmt_a'], case['fmt_b'], case['pattern']),
+                 case=case, klass='interleaved')
+        interleaved_roundtrip(ctx, case['a'], case['b'], case['fmt_a'], case['fmt_b'],
+                              case['pattern'], case)
     elif k == 'filefix':
         try:
             e0 = g_load(case['text'])
@@ -431,7 +538,7 @@ def exec_case(case, ctx):
 
 def run_unit(u, ctx):
     {'cp': run_cp, 'rand': run_rand, 'fix': run_fix, 'file': run_file,
-     'cpfile': run_cpfile}[u['k']](u, ctx)
+     'cpfile': run_cpfile, 'interleaved': run_interleaved}[u['k']](u, ctx)
 
 
 def replay(case, ctx):
